@@ -40,8 +40,16 @@ impl Manager {
         EcallTerminationPass::run(&mut cfg)?;
         FunctionMarkupPass::run(&mut cfg)?;
 
-        AvailableValuePass::run(&mut cfg)?;
-        EcallTerminationPass::run(&mut cfg)?;
+        // Cutting the edges after an exit ecall changes the values that reach
+        // the code below it, which can turn a further ecall into a known exit
+        // (and leaves stale values where an edge was cut). Repeat until no
+        // edge is removed, so that the value facts describe the final graph.
+        loop {
+            AvailableValuePass::run(&mut cfg)?;
+            if !EcallTerminationPass::terminate(&mut cfg) {
+                break;
+            }
+        }
         // EliminateDeadCodeDirectionsPass::run(&mut cfg)?; // to eliminate ecall terminated code
         LivenessPass::run(&mut cfg)?;
         Ok(cfg)
